@@ -19,6 +19,7 @@ fn main() {
         Some("c02") => c02::run(&a[2..]),
         Some("c03") => c03::run("c03", &a[2..]),
         Some("c11") => c11::run(&a[2..]),
+        Some("c11-dump") => c11::dump(&a[2..]),
         Some("c11-shard") => c11::shard(&a[2..]),
         Some("parse1") => c11::parse1(&a[2..]),
         Some("c12") => c12::run(&a[2..]),
